@@ -22,6 +22,14 @@ CLAIMED = {
          "Machine-checked theorems: every timed operation (read(n), read_iter, readline, expect, read_until_prompt, send with read-back) has returned or raised by call time + T, raises TimeoutError exactly at call time + T and never earlier, never raises it without a timeout; read_until_timeout returns exactly at T with exactly the data delivered before it. Partial by nature: virtual time only (the interpreter's latency and the OS are not modelled). Tied to /repo by differential runs over generated arrival schedules (trickles, arrivals at the deadline, multi-slice send echoes).",
          "Trusted: Coq kernel + vm_compute; hand-written model coq/Channel.v; the virtual clock substituted for channel.py's time module; a ChannelIO that honours its own timeout exactly. SubprocessChannelIO's select loop is not covered by the theorems.",
          "DESIGN.md 8/C06"),
+ "C05": ("Coq proof of the ring-buffer invariant (ring = last 2*len bytes of the data since registration; window lemma) over the channel model + correspondence with the real Channel",
+         "Machine-checked theorems over an executable model of Channel._check and the read iteration: for any set of registered literal death strings of different lengths and any incoming piece, _check raises iff one of the strings occurs in the data received since ITS registration -- never earlier, never missed, whatever the position of the occurrence relative to piece and scan-window boundaries and whatever read method is used (all are loops of the same iteration). Bounded-regex death strings: soundness proved, completeness only exercised by the correspondence/oracle (partial). Tied to /repo by differential runs (all compositions x all offsets x read methods x sets/nestings) with bytes.find/re as independent oracle.",
+         "Trusted: Coq kernel + vm_compute; hand-written model coq/Channel.v; the correspondence harness. Regex death strings: completeness not proved.",
+         "DESIGN.md 8/C05"),
+ "C08": ("Coq proof of the stream invariant (forwarded ++ held = data, held = longest prompt-prefix suffix; KMP-style incremental overlap lemma) over the channel model + correspondence with the real Channel (stream contents after every operation)",
+         "Machine-checked theorems over an executable model of _write_stream/with_stream: with suppression on and a literal prompt, what is forwarded is always the data read since attaching minus exactly the longest suffix that could still become the prompt; after a read that ends at the prompt the stream holds exactly the output, detaching drops the held-back prompt, nothing leaks; with suppression off everything is forwarded; all attached streams get the same text. The full property is refuted (theorems C08_*_refuted, known findings) for regex prompts and for nested attachments with different modes. Tied to /repo by differential runs over all compositions of short streams and attach/detach sequences.",
+         "Trusted: Coq kernel + vm_compute; hand-written models coq/Channel.v, Utf8.v; the correspondence harness. Known findings: regex-prompt hold-back, nested mixed modes (known_findings.json).",
+         "DESIGN.md 8/C08"),
 }
 NOT_YET = "check not built yet (work in progress; will be claimed once its Coq theorems and correspondence check exist)"
 
